@@ -25,15 +25,19 @@ BUDGET = {"quick": {"shards": 4, "examples": 250}, "thorough": {"shards": 16, "e
 def _doc():
     line = st.one_of(G.benign_line(), G.benign_line(), st.just(""),
                      st.sampled_from(["  indented continuation", "    deeper é", ":param x: text", "* bullet", "#hash start",
-                                      "[bracket] start", "trailing spaces   ", "漢字 text", ".. note:: inline"]))
+                                      "[bracket] start", "trailing spaces   ", "漢字 text", ".. note:: inline",
+                                      # characters str.splitlines() treats as line boundaries, inside one comment line
+                                      "Form\x0cfeed inside", "Next\x85line char", "Line\u2028separator and\u2029paragraph", "Vt\x0band fs\x1cgs\x1d"]))
     return st.fixed_dictionaries({"lines": st.lists(line, max_size=5), "form": st.sampled_from(["leader", "leader", "leader", "bare"]),
                                   "mpos": st.integers(0, 8)})
 
 
 def strategy(tier):
     multi = st.lists(st.sampled_from(['"cont @\\\nnext"', '"nl @\nnext"', '"two @\\\nmore\\\nlines"']), min_size=1, max_size=1)
-    p = G.Profile(doc=_doc(), max_items=6 if tier == "quick" else 10, depth=3,
-                  set_values=G.weighted((3, G.arglist(0, 4, G.SET_VALUE_T)), (1, multi)))
+    # unquoted arguments ending in an escaped blank: the blank belongs to the argument even when a line break follows
+    pool = G.SET_VALUE_T + ["end@\\ ", "tab@\\\t", "\\ @\\ "]
+    p = G.Profile(doc=_doc(), max_items=6 if tier == "quick" else 10, depth=3, arg_pool=pool,
+                  set_values=G.weighted((3, G.arglist(0, 4, pool)), (1, multi)))
     return st.fixed_dictionaries({
         "module": G.module(p),
         "layouts": st.lists(st.lists(st.integers(0, 23), min_size=1, max_size=48), min_size=1, max_size=3),
